@@ -27,12 +27,20 @@ SMALL = {"line": [b"a\nb\n", b"a\na\nb\n", b"{\n\n}\n", b"{\na\nb\n}\n"], "char"
 
 
 def case_of(f, runs, **kw):
-    d = dict(orig=driver.enc_fields(f), runs=[[r["kind"], r["first"], [driver.enc_event(e) for e in r["events"]]] for r in runs])
+    d = dict(orig=driver.enc_fields(f), runs=[[r["kind"], r["first"], [driver.enc_event(e) for e in r["events"]]] +
+                                              ([driver.enc_fields(r["reload"], sep="/")] if r.get("reload") else []) for r in runs])
     d.update(kw)
     return d
 
 
 def apply_monitors(ctx, which, obs, runs, f, orig, case):
+    # the monitors speak about ONE testcase followed through the runs; from the first re-load on (a new job on the same
+    # object) the runs are judged by the correspondence with the model and by the whole-run stages (second_job_*)
+    cut = next((i for i, r in enumerate(runs) if r.get("reload")), len(runs))
+    if cut < len(runs):
+        obs, runs = obs[:cut], runs[:cut]
+        if not runs:
+            return
     if "c01" in which:
         driver.mon_c01(ctx, obs, orig, case)
     if "c02" in which:
